@@ -15,7 +15,7 @@ for n in $names; do
   git -C /repo apply /verif/$d/patch.diff || { echo "$n: patch does not apply"; continue; }
   verdict=MISSED
   for p in $pid $extra; do
-    out=$(./check $p quick 2>&1); rc=$?
+    out=$(timeout 1800 ./check $p quick 2>&1); rc=$?
     if [ $rc -ne 0 ] && echo "$out" | grep -q "^VIOLATION property=$p"; then verdict="DETECTED by $p: $(echo "$out" | grep '^VIOLATION' | head -1 | cut -c1-160)"; break; fi
   done
   git -C /repo checkout -- . 
